@@ -40,6 +40,36 @@ def int_constants(fns):
     return out
 
 
+def with_callees(lib, fns, limit=40):
+    """the given functions plus every function / closure of the same crate they can reach through calls or closure
+    construction: the constants of a helper (e.g. a `second_octet_range(first)` table) cut the alphabet as well"""
+    by = {}
+    for g in lib.fns:
+        by[F.raw_key(g.path)] = g
+    out = list(fns)
+    seen = {F.raw_key(f.path) for f in fns}
+    work = list(fns)
+    while work and len(out) < limit:
+        f = work.pop()
+        for b in f.blocks:
+            refs = []
+            t = b['term']
+            if t['k'] == 'call':
+                for k in ('resolved', 'path'):
+                    if t['func'].get(k):
+                        refs.append(t['func'][k])
+            for st in b['stmts']:
+                if st['k'] == 'assign' and st['rv'].get('k') == 'agg' and st['rv'].get('closure'):
+                    refs.append(st['rv']['closure'])
+            for r in refs:
+                k = F.raw_key(r)
+                if k in by and k not in seen:
+                    seen.add(k)
+                    out.append(by[k])
+                    work.append(by[k])
+    return out
+
+
 def int_cuts(fns):
     """Cut points for the input alphabet: positions where some comparison of the functions can change its answer.
     `x >= c` / `x < c` cut at c; `x > c` / `x <= c` at c+1; `==`, `!=`, switch values at c and c+1;
